@@ -40,6 +40,7 @@ type Profile struct {
 	PPool                          int  // the scheduler is restricted to a node pool; nodes/pods carry pool labels
 	Saturated                      bool // idle GPUs are filled with running filler workloads (see Saturate)
 	Contention                     bool // GPUs are the bottleneck: GPU nodes, GPU workloads, meaningful GPU quotas
+	TopoFamily                     bool // topology families: most workloads carry a required level, start partly running inside ONE domain, sometimes with a terminating pod left in another domain
 }
 
 func DefaultProfile() Profile {
@@ -378,9 +379,12 @@ func newPlacer(w *World) *placer {
 
 // place finds a node (and GPU groups) on which the request fits without oversubscribing anything,
 // counting one pod slot for the reservation pod of every group it opens. start rotates the search.
-func (p *placer) place(req Request, start int, name string) (string, []string, bool) {
+func (p *placer) place(req Request, start int, name string, allow func(node string) bool) (string, []string, bool) {
 	for k := 0; k < len(p.order); k++ {
 		nn := p.order[(start+k)%len(p.order)]
+		if allow != nil && !allow(nn) {
+			continue
+		}
 		c, u := p.caps[nn], p.use[nn]
 		node := p.nodeModel(nn)
 		if node.MigStrategy == "mixed" && (req.GPUs > 0 || req.Sharing()) {
@@ -617,7 +621,7 @@ func genGroups(t *rapid.T, pf Profile, w *World) {
 				sets = append(sets, fmt.Sprintf("s%d", s))
 			}
 		}
-		if len(w.Topologies) > 0 && chance(t, 6, "topoConstraint") {
+		if len(w.Topologies) > 0 && (chance(t, 6, "topoConstraint") || pf.TopoFamily) {
 			tp := w.Topologies[between(t, 0, len(w.Topologies)-1, "topoIdx")]
 			tc := &TopoConstraint{Topology: tp.Name}
 			if chance(t, 1, "unknownTopo") {
@@ -642,7 +646,7 @@ func genGroups(t *rapid.T, pf Profile, w *World) {
 			state = Running
 		}
 		runningCount := replicas
-		if state == Running && replicas > 1 && between(t, 0, 3, "partial") == 0 {
+		if state == Running && replicas > 1 && (between(t, 0, 3, "partial") == 0 || (pf.TopoFamily && chance(t, 6, "partialTopo"))) {
 			runningCount = between(t, 1, replicas, "runningCount") // partially running (elastic growth or stale gang)
 		}
 		start := between(t, 0, len(w.Nodes)-1, "placeStart")
@@ -652,6 +656,74 @@ func genGroups(t *rapid.T, pf Profile, w *World) {
 			termMode = pickInt(t, "termMode", 1, 2) // 1 all pods, 2 first pod only
 		} else if state == Running && chance(t, pf.PBinding, "bindingWorkload") {
 			bindMode = pickInt(t, "bindingMode", 1, 2)
+		}
+		// Topology-aware history: the running pods of a workload with a required level lie in one domain of
+		// that level (as the scheduler would have placed them); optionally (termMode 3) the first pod is a
+		// terminating left-over in ANOTHER domain - the workload moved, its old pod has not gone yet.
+		var reqTopo *TopoConstraint
+		if g.Topo != nil && g.Topo.Required != "" {
+			reqTopo = g.Topo
+		}
+		for _, sg := range g.SubGroups {
+			if reqTopo == nil && sg.Topo != nil && sg.Topo.Required != "" {
+				reqTopo = sg.Topo
+			}
+		}
+		var domainOfNode func(node string) (string, bool)
+		if reqTopo != nil {
+			for _, tp := range w.Topologies {
+				if tp.Name != reqTopo.Topology {
+					continue
+				}
+				lvl := -1
+				for i, l := range tp.Levels {
+					if l == reqTopo.Required {
+						lvl = i
+					}
+				}
+				if lvl < 0 {
+					break
+				}
+				levels := tp.Levels[:lvl+1]
+				domainOfNode = func(node string) (string, bool) {
+					nm := pl.nodeModel(node)
+					d := ""
+					for _, l := range levels {
+						v := nm.Labels[l]
+						if l == HostnameLabel {
+							v = nm.Name
+						}
+						if v == "" {
+							return "", false
+						}
+						d += "/" + v
+					}
+					return d, true
+				}
+			}
+		}
+		topoAware := domainOfNode != nil && (pf.TopoFamily || chance(t, 7, "topoAwareHistory"))
+		if topoAware && state == Running && replicas > 1 && termMode == 0 && bindMode == 0 && chance(t, 4, "staleDomainPod") {
+			termMode = 3
+		}
+		pinDomain, staleDomain := "", ""
+		allowNode := func(pi int) func(string) bool {
+			if !topoAware {
+				return nil
+			}
+			return func(node string) bool {
+				d, ok := domainOfNode(node)
+				if !ok {
+					return false
+				}
+				if termMode == 3 && pi == 0 {
+					return true
+				}
+				if staleDomain != "" && d == staleDomain {
+					return false
+				}
+				return pinDomain == "" || d == pinDomain
+			}
 		}
 		perSet := map[string]int{}
 		for pi := 0; pi < replicas; pi++ {
@@ -672,9 +744,17 @@ func genGroups(t *rapid.T, pf Profile, w *World) {
 			p.State = Pending
 			if state == Running && pi < runningCount {
 				req := PodRequest(BuildPod(&g, &p, stubNow))
-				if node, groups, ok := pl.place(req, start, p.Name); ok && admit(&g, req, node) {
+				if node, groups, ok := pl.place(req, start, p.Name, allowNode(pi)); ok && admit(&g, req, node) {
 					p.State, p.Node, p.Groups = Running, node, groups
-					if termMode == 1 || (termMode == 2 && pi == 0) {
+					if topoAware {
+						d, _ := domainOfNode(node)
+						if termMode == 3 && pi == 0 {
+							staleDomain = d
+						} else if pinDomain == "" {
+							pinDomain = d
+						}
+					}
+					if termMode == 1 || ((termMode == 2 || termMode == 3) && pi == 0) {
 						p.State = Terminating
 					} else if bindMode == 1 || (bindMode == 2 && pi == 0) {
 						p.State = Binding
